@@ -385,6 +385,7 @@ pub fn run(tier: &str, seed: u64, out: &Path) -> i32 {
         // the opt-in rewrite decisions (model RF/Model/OptRewrites.lean, theorems RF/Props/OptRewrites.lean)
         let mut r2 = Rng::new(seed ^ 0x0971);
         crate::optin_corr::cases(&mut o, &mut r2, th);
+        crate::vertical_corr::cases(&mut o, &mut r2, th);
     }
     o.finish(out, jobs())
 }
